@@ -183,13 +183,32 @@ pub struct Built {
     pub fired: Vec<(&'static str, &'static str)>,
 }
 
+thread_local! {
+    /// set by the properties that are *about* the encoders (C01): there a panicking encoder is
+    /// the violation.  Everywhere else the encoders only build the stimulus, and a frame is what
+    /// the specification says it is.
+    pub static STRICT_ENCODER: std::cell::Cell<bool> = const { std::cell::Cell::new(false) };
+}
+
 /// frame a payload with the real encoders (or the reference one)
 pub fn frame_with(enc: Enc, payload: &[u8]) -> Vec<u8> {
-    match enc {
-        Enc::Buf => sml_rs::transport::encode::<Vec<u8>>(payload)
-            .expect("HARNESS: encode::<Vec> failed without fault injection"),
-        Enc::Iter => sml_rs::transport::encode_streaming(payload).collect(),
+    let real = || match enc {
+        Enc::Buf => sml_rs::transport::encode::<Vec<u8>>(payload).unwrap_or_else(|_| refenc(payload)),
+        Enc::Iter => {
+            // bounded: an encoder that never ends must not take the generator with it
+            let cap = payload.len() * 2 + 64;
+            sml_rs::transport::encode_streaming(payload).take(cap).collect()
+        }
         Enc::Ref => refenc(payload),
+    };
+    if enc == Enc::Ref || STRICT_ENCODER.with(|c| c.get()) {
+        return real();
+    }
+    match crate::runner::catch(real) {
+        Ok(f) => f,
+        // the encoder panicked while building a stimulus: that is C05 / C07 / C01's finding; this
+        // run goes on with the frame the specification defines
+        Err(_) => refenc(payload),
     }
 }
 
